@@ -196,6 +196,32 @@ func (c *Ptr) Dec() (int64, bool) {
 	return c.P.V, c.P.OK() && c.P.V != 0
 }
 
+// Fn refers to its pointees through a func value (closure) and an unsafe.Pointer only.
+type Fn struct {
+	F func() *Box
+	P unsafe.Pointer
+}
+
+func (c *Fn) Enc(v int64) {
+	if v == 0 {
+		*c = Fn{}
+		return
+	}
+	b := newBox(v)
+	c.F = func() *Box { return b }
+	c.P = unsafe.Pointer(newBox(v))
+}
+func (c *Fn) Dec() (int64, bool) {
+	if c.F == nil {
+		return 0, c.P == nil
+	}
+	b, p := c.F(), (*Box)(c.P)
+	if b == nil || p == nil {
+		return -1, false
+	}
+	return b.V, b.OK() && p.OK() && p.V == b.V && b.V != 0
+}
+
 type Slc struct{ S []int64 }
 
 func (c *Slc) Enc(v int64) {
@@ -551,6 +577,7 @@ const (
 	IR1
 	IR2
 	IP12
+	IFn
 	N
 )
 
@@ -561,7 +588,7 @@ func init() {
 		mk[Z0]("Z0"), mk[Z1]("Z1"),
 		mk[Ptr]("Ptr"), mk[Slc]("Slc"), mk[Str]("Str"), mk[Mp]("Mp"), mk[Ifc]("Ifc"), mk[Mix]("Mix"),
 		mk[R0]("R0"), mk[R1]("R1"), mk[R2]("R2"),
-		mk[P12]("P12"),
+		mk[P12]("P12"), mk[Fn]("Fn"),
 	}
 	for i := range Types {
 		Types[i].Idx = i
@@ -569,7 +596,7 @@ func init() {
 	for _, i := range []int{IR0, IR1, IR2} {
 		Types[i].IsRel = true
 	}
-	for _, i := range []int{IPtr, ISlc, IStr, IMp, IIfc, IMix, IR2} {
+	for _, i := range []int{IPtr, ISlc, IStr, IMp, IIfc, IMix, IR2, IFn} {
 		Types[i].HasPtr = true
 	}
 }
